@@ -11,9 +11,9 @@ SKEYS = ["a", "b c", "k", "é"]
 IKEYS = [0, 1, -1, 7]
 LIST_T = ["li", "ls", "lo", "ln", "lb", "lg"]
 BIGS = [0, 5, 7, -3, 99999999999, -99999999999]
-MAP_T = ["msi", "mis", "msl", "mbs"]
+MAP_T = ["msi", "mis", "msl", "mbs", "mso"]
 TYPE_SRC = {"li": "[int...]", "ls": "[str...]", "lo": "[int?...]", "ln": "[[int...]...]",
-            "msi": "map[str, int]", "mis": "map[int, str]", "msl": "map[str, [int...]]", "mbs": "map[bool, str]",
+            "msi": "map[str, int]", "mis": "map[int, str]", "msl": "map[str, [int...]]", "mbs": "map[bool, str]", "mso": "map[str, int?]",
             "lb": "[bool...]", "lg": "[bigint...]"}
 
 CALLBACKS = {
@@ -89,6 +89,10 @@ class Interp:
         elif o.t in MAP_T:
             items = ["%s: %s" % (fmt_value(k, True), fmt_value(v, True)) for k, v in o.data.items()]
             self.em.out_set("{", items, "}")
+            if o.t == "mso":
+                for kk in SKEYS[:2]:
+                    self.em.code("print %s.contains_key(%s)" % (name, lit(kk)))
+                    self.em.out("true" if kk in o.data else "false")
         else:
             self.em.out(self.render(o))
 
@@ -206,7 +210,12 @@ class Interp:
                 obj = Obj(t, list(op["init"]))
             name = self.fresh(t, obj)
             self.plain.add(name)
-            if t in MAP_T:
+            if t == "mso":
+                # (a map literal with optional values does not accept plain ints: fill it by assignments)
+                em.code("%s = %s" % (name, TYPE_SRC[t]))
+                for kk, vv in obj.data.items():
+                    em.code("%s[%s] = %s" % (name, lit(kk), lit(vv)))
+            elif t in MAP_T:
                 if obj.data:
                     body = ", ".join("%s: %s" % (lit(kk), lit(vv)) for kk, vv in obj.data.items())
                     em.code("%s = %s {%s}" % (name, TYPE_SRC[t], body))
@@ -582,11 +591,14 @@ class Interp:
         em = self.em
         if a.t == "mbs":
             kt_ok = lambda x: isinstance(x, bool)
-        elif a.t == "msi":
+        elif a.t in ("msi", "mso"):
             kt_ok = lambda x: isinstance(x, str)
         else:
             kt_ok = lambda x: isinstance(x, int) and not isinstance(x, bool)
         vt_ok = (lambda x: isinstance(x, int) and not isinstance(x, bool)) if a.t == "msi" else (lambda x: isinstance(x, str))
+        if a.t == "mso":
+            # optional values: a key present with value nil is still a key of the map
+            vt_ok = lambda x: x is None or (isinstance(x, int) and not isinstance(x, bool))
         key = op.get("k")
         if k in ("mread", "mwrite", "mopassign", "replace", "mremove", "contains") and not kt_ok(key):
             return False
@@ -642,7 +654,7 @@ class Interp:
             a.data[key] = op["v"]
             return True
         if k == "mopassign":
-            if key not in a.data or not vt_ok(op.get("v")):
+            if key not in a.data or not vt_ok(op.get("v")) or a.t == "mso":
                 return False
             em.code("%s[%s] += %s" % (an, lit(key), lit(op["v"])))
             a.data[key] = a.data[key] + op["v"]
@@ -696,7 +708,7 @@ def gen_op(rng, it):
     lists = [x for x in names if it.vars[x].t in LIST_T]
     maps = [x for x in names if it.vars[x].t in MAP_T]
     if not names or (len(names) < 3 and rng.chance(1, 3)):
-        t = rng.weighted([("li", 4), ("ls", 2), ("lo", 2), ("ln", 2), ("msi", 3), ("mis", 2), ("msl", 2), ("lb", 1), ("lg", 1), ("mbs", 1)])
+        t = rng.weighted([("li", 4), ("ls", 2), ("lo", 2), ("ln", 2), ("msi", 3), ("mis", 2), ("msl", 2), ("lb", 1), ("lg", 1), ("mbs", 1), ("mso", 2)])
         if t == "li":
             init = [rng.choice(INTS) for _ in range(rng.range(0, 4))]
         elif t == "ls":
@@ -715,6 +727,8 @@ def gen_op(rng, it):
             init = []
         elif t == "msi":
             init = [[kk, rng.choice(INTS)] for kk in rng.sample(SKEYS, rng.range(0, 3))]
+        elif t == "mso":
+            init = [[kk, rng.choice(INTS + [None, None])] for kk in rng.sample(SKEYS, rng.range(0, 3))]
         else:
             init = [[kk, rng.choice(STRS)] for kk in rng.sample(IKEYS, rng.range(0, 3))]
         return {"op": "new", "t": t, "init": init}
@@ -814,6 +828,9 @@ def gen_op(rng, it):
     elif o.t == "msi":
         op["k"] = rng.choice(SKEYS)
         op["v"] = rng.choice(INTS)
+    elif o.t == "mso":
+        op["k"] = rng.choice(SKEYS)
+        op["v"] = rng.choice(INTS + [None, None, None])
     else:
         op["k"] = rng.choice(IKEYS)
         op["v"] = rng.choice(STRS)
